@@ -342,6 +342,102 @@ fn memory_world(ctx: &mut Ctx) {
     let _ = from_zmq;
 }
 
+/// A subscriber stalls for a long time - a thousand-odd small messages are published meanwhile, far
+/// fewer bytes than the high-water mark - then reads again and catches up. From then on its
+/// connection accepts every write, so it misses nothing that is published afterwards; the
+/// subscriber that never stalled misses nothing at all.
+pub fn recovery(ctx: &mut Ctx) {
+    let kind = if ctx.idx % 2 == 0 { Kind::Pub } else { Kind::Xpub };
+    world::swarm(ctx, SwarmOpts { tiny_chunks: false, small_caps: false, allow_latency: false, ..Default::default() });
+    let n = 1030 + ctx.plan(400) as usize;
+    let len = ctx.plan_pick(&[0usize, 10, 40, 90]);
+    let cap = ctx.plan_pick(&[300usize, 2_000, 9_000]);
+    let tail = 3usize;
+    let out: Rc<RefCell<Option<(Vec<u8>, Vec<u8>, usize)>>> = Rc::new(RefCell::new(None));
+    let o2 = out.clone();
+    rt::task::spawn_local("app", async move {
+        let mut sock = AnySock::new(kind, None);
+        let ep = sock.bind("tcp://127.0.0.1:0").await.expect("bind").to_string();
+        let mut peers = Vec::new();
+        for _ in 0..2 {
+            let mut p = RawPeer::connect(&ep).expect("connect");
+            p.hello("SUB", None).await.expect("hello");
+            p.send_msg(&[vec![1]]).await.expect("subscribe");
+            p.conn.set_io(1, |io| io.wyield_pm = 0);
+            p.conn.set_cap(1, 1 << 40);
+            peers.push(p);
+        }
+        if kind == Kind::Xpub {
+            while let Some(Ok(_)) = rt::future::or_idle(sock.recv()).await {}
+        } else {
+            rt::task::idle().await;
+        }
+        // the second subscriber stops reading
+        peers[1].conn.set_auto_drain(1, false);
+        peers[1].conn.set_cap(1, cap);
+        rt::count("fault_stall");
+        for i in 0..n {
+            if sock.send(to_zmq(&world::tagged(5, i as u32, &[len]))).await.is_err() {
+                return world::park().await;
+            }
+        }
+        // ... and reads again
+        peers[1].conn.set_cap(1, 1 << 40);
+        peers[1].conn.set_auto_drain(1, true);
+        rt::task::idle().await;
+        for i in n..n + tail {
+            if sock.send(to_zmq(&world::tagged(5, i as u32, &[len]))).await.is_err() {
+                return world::park().await;
+            }
+            rt::task::idle().await;
+        }
+        rt::task::idle().await;
+        *o2.borrow_mut() = Some((peers[0].inbound_raw(), peers[1].inbound_raw(), n + tail));
+        world::park().await;
+        drop(sock);
+        drop(peers);
+    });
+    let end = ctx.sim.run(2_000_000);
+    if end == rt::RunEnd::Budget {
+        ctx.violation("no_quiescence", format!("{}: publishing to a subscriber that stalls and recovers: no quiescence", kind.name()));
+    }
+    ctx.check_panics();
+    let o = out.borrow();
+    match &*o {
+        Some((healthy, victim, total)) => {
+            let seqs = |tap: &[u8]| -> (Vec<u32>, Option<String>) {
+                let p = rc::parse_stream(tap);
+                let v: Vec<u32> = p.messages().iter().filter_map(|m| world::tag_of(m)).filter(|t| t.0 == 5).map(|t| t.1).collect();
+                (v, p.error.as_ref().map(|e| format!("{e:?}")).or(if p.partial > 0 { Some(format!("{} bytes of an incomplete message at the end", p.partial)) } else { None }))
+            };
+            let (h, herr) = seqs(healthy);
+            let (v, verr) = seqs(victim);
+            if h != (0..*total as u32).collect::<Vec<u32>>() || herr.is_some() {
+                ctx.violation("healthy_subscriber_missed_messages", format!("{}: the subscriber that accepts every write received {} of {total} messages ({:?}) while another one stalled and recovered", kind.name(), h.len(), herr));
+            }
+            if verr.is_some() {
+                ctx.violation("victim_stream_torn", format!("{}: the stream to the subscriber that stalled and recovered is not a sequence of complete messages: {:?}", kind.name(), verr));
+            }
+            if v.windows(2).any(|w| w[0] >= w[1]) {
+                ctx.violation("victim_stream_not_a_subsequence", format!("{}: what reached the subscriber that stalled and recovered is not an order-preserving subsequence of what was published", kind.name()));
+            }
+            if v.last() != Some(&(*total as u32 - 1)) {
+                ctx.violation("recovered_subscriber_starved", format!("{}: a subscriber stalled while {n} messages of {len}+8 bytes were published (its connection accepted {cap} bytes), then read again and caught up; of the {tail} messages published after that, one at a time with the world quiet in between, the last one never reached it (it has {} messages, the last is #{:?})", kind.name(), v.len(), v.last()));
+            }
+            ctx.nontrivial();
+            ctx.probe_n("messages_published_during_the_stall", n as u64);
+        }
+        None => {
+            if end == rt::RunEnd::Quiescent && ctx.sim.rt.panics.borrow().is_empty() {
+                ctx.violation("publisher_blocked", format!("{}: publishing to a subscriber that stalls and recovers never completed", kind.name()));
+            }
+        }
+    }
+    if ctx.want_sample {
+        ctx.out.sample = Some(format!("{}: {n} messages of {len}+8 bytes published while one of two subscribers accepts {cap} bytes; it then recovers", kind.name()));
+    }
+}
+
 pub fn def() -> PropDef {
     PropDef {
         id: "C12",
@@ -350,6 +446,7 @@ pub fn def() -> PropDef {
         assumptions: &["'accepts every write' = the subscriber's pipe never answers Pending to a write (short writes allowed)", "memory bound asserted: 2 x (128 KiB + message size) + 64 KiB of live heap growth, independent of the number of messages published"],
         strata: vec![
             Stratum { name: "slow_world", quick: 30_000, thorough: (300_000) * 4, exhaustive: (false, false), run: slow_world, what: "publisher completion, healthy subscriber complete, victim stream = prefix of an ordered subsequence" },
+            Stratum { name: "recovery", quick: 600, thorough: 40_000, exhaustive: (false, false), run: recovery, what: "a subscriber stalls while 1030..1430 small messages are published, then catches up: it gets what is published afterwards; the other subscriber misses nothing" },
             Stratum { name: "memory_world", quick: 4_000, thorough: (40_000) * 4, exhaustive: (false, false), run: memory_world, what: "heap growth while publishing to a stalled subscriber" },
         ],
     }
